@@ -502,7 +502,7 @@ var convOps = []int{opToCanonical, opToLagrange, opToLagrangeCoset, opToRegular,
 var convOpsNoCoset = []int{opToCanonical, opToLagrange, opToRegular, opToBitReverse}
 var allOps = []int{opToCanonical, opToLagrange, opToLagrangeCoset, opToRegular, opToBitReverse, opClone, opShallowClone, opRoundTrip, opSetSize, opShift}
 
-var allShifts = func(size int) []int { return []int{0, 1, 2, 5, 6, 7, -1, -6, size, size + 3} }
+var allShifts = func(size int) []int { return []int{0, 1, 2, 3, 4, 5, 6, 7, -1, -6, size, size + 3} } // every small shift (each has its own exponentiation shortcut)
 
 func (e *env) newGroup(D *dom, n0 int, f iops.Form, shift int, alphabet []int, length int) *group {
 	g := &group{D: D, n0: n0, form0: f, shift: shift, alphabet: alphabet, length: length, maxIdx: 4}
